@@ -257,6 +257,31 @@ fn roots(tier: Tier, shard: usize, n: usize) -> Report {
 		chk!(r, v.root().ok() == Some(h(root)), "roots:readonly_at", format!("ReadonlyPMMR::at(size {}) root", size), json!({"fn": "readonly_at", "size": size}));
 		chk!(r, v.unpruned_size() == *size, "roots:readonly_size", format!("ReadonlyPMMR::at(size {}) size", size), json!({"fn": "readonly_at", "size": size}));
 	}
+	// rewindable views: rewinding the view to ANY position (not only to a complete size) gives the
+	// smallest complete MMR containing that position, with that MMR's root
+	{
+		let total = f.size();
+		let upto = total.min(tier.pick(4200, 33000));
+		let mut l = 0usize; // number of leaves of the expected MMR
+		for pos in 1..=upto {
+			while roots_at[l].0 < pos {
+				l += 1;
+			}
+			if !mine(pos, shard, n) {
+				continue;
+			}
+			let (want_size, want_root, _) = &roots_at[l];
+			let mut v = grin_core::core::pmmr::RewindablePMMR::<Elem, _>::at(&ba, total);
+			let rw = v.rewind(pos);
+			let ro = v.as_readonly();
+			r.evaluations += 1;
+			let case = json!({"fn": "rewindable_rewind", "pos": pos, "leaves": maxl});
+			chk!(r, rw.is_ok(), "roots:rewindable:error", format!("RewindablePMMR::rewind({}) = {:?}", pos, rw), case.clone());
+			chk!(r, ro.unpruned_size() == *want_size, "roots:rewindable:size", format!("view rewound to position {} has size {} expected {} (the smallest complete MMR containing it)", pos, ro.unpruned_size(), want_size), case.clone());
+			chk!(r, ro.root().ok() == Some(h(want_root)), "roots:rewindable:root", format!("view rewound to position {}: root differs from the root of the {}-leaf MMR", pos, l + 1), case.clone());
+		}
+		r.outcome("rewindable-view:every-position");
+	}
 	r.extra.insert("bound_leaves".into(), json!(maxl));
 	r
 }
